@@ -547,13 +547,17 @@ Section Sound.
       apply ok_pure; [exact Hp|]. intros sc _. apply ok_ret; [reflexivity|exact Hr1|exact Hs1].
     - (* EOp *)
       assert (Hschema_ops : forall (okx : expr -> bool), (forall o, okx o = true -> exists t0, synth E G o = Some t0 /\ is_schema_t t0 = true) ->
-                forallb okx es = true -> is_schema_t t = true -> N.eqb op 3 = false ->
+                forallb okx es = true -> is_schema_t t = true -> N.eqb op 3 = false -> vop_of op <> None ->
                 ok_res fr (VT t) (if N.eqb op 3
                    then do (s1, rs) <- map_st (fun s o => do (s', v) <- eval false P n s o []; do r <- cast_ranges v; Ok (s', r)) s es;
                         Ok (s1, (VRanges (fold_left (im_extend rgkey_eqb) rs []), a))
-                   else do (s1, ss) <- map_st (fun s o => do (s', v) <- eval false P n s o []; do sc <- cast_schema v; Ok (s', sc)) s es;
-                        Ok (s1, (VOp op ss, a)))).
-      { intros okx Hokx Hall Hst' Hop. rewrite Hop.
+                   else match vop_of op with
+                        | None => Panic P_node
+                        | Some vo =>
+                            do (s1, ss) <- map_st (fun s o => do (s', v) <- eval false P n s o []; do sc <- cast_schema v; Ok (s', sc)) s es;
+                            Ok (s1, (VOp vo ss, a))
+                        end)).
+      { intros okx Hokx Hall Hst' Hop Hvop. rewrite Hop. destruct (vop_of op) as [vo|]; [|contradiction].
         eapply ok_bind.
         { apply (map_st_ok fr okx (fun _ => True)); [|exact Hall|exact Hrf|reflexivity].
           intros s0 o Ho Hr0 Hs0. destruct (Hokx o Ho) as (t0 & Ht0 & Hs0').
@@ -562,7 +566,7 @@ Section Sound.
       destruct op as [|[[p|p|]|[p|p|]|]]; cbn beta iota in Hty; try discriminate Hty.
       + (* join *)
         destruct (forallb (fun o => is_tag (synth E G o) (T BObject)) es) eqn:Hes; [|discriminate Hty]. injection Hty as <-.
-        apply (Hschema_ops (fun o => is_tag (synth E G o) (T BObject))); [|exact Hes|reflexivity|reflexivity].
+        apply (Hschema_ops (fun o => is_tag (synth E G o) (T BObject))); [|exact Hes|reflexivity|reflexivity|discriminate].
         intros o Ho. exists (T BObject). split; [apply is_tag_eq, Ho|reflexivity].
       + (* range *)
         destruct (forallb (fun o => has content_like_t (synth E G o)) es) eqn:Hes; [|discriminate Hty]. injection Hty as <-.
@@ -577,11 +581,11 @@ Section Sound.
         destruct (synth E G o1) as [t0|] eqn:Ho1; [|discriminate Hty].
         destruct (is_schema_t t0 && forallb (fun o => is_tag (synth E G o) t0) (o1 :: es)) eqn:Hes; [|discriminate Hty]. injection Hty as <-.
         apply andb_prop in Hes as [Hs0 Hes].
-        apply (Hschema_ops (fun o => is_tag (synth E G o) t0)); [|exact Hes|exact Hs0|reflexivity].
+        apply (Hschema_ops (fun o => is_tag (synth E G o) t0)); [|exact Hes|exact Hs0|reflexivity|discriminate].
         intros o Ho. exists t0. split; [apply is_tag_eq, Ho|exact Hs0].
       + (* any *)
         destruct (forallb (fun o => has is_schema_t (synth E G o)) es) eqn:Hes; [|discriminate Hty]. injection Hty as <-.
-        apply (Hschema_ops (fun o => has is_schema_t (synth E G o))); [|exact Hes|reflexivity|reflexivity].
+        apply (Hschema_ops (fun o => has is_schema_t (synth E G o))); [|exact Hes|reflexivity|reflexivity|discriminate].
         intros o Ho. apply has_some in Ho as (t0 & Ht0 & Hs0). exists t0. auto.
     - (* ECont *)
       match type of Hty with (if ?c1 && forallb ?f metas then _ else _) = _ =>
